@@ -57,6 +57,12 @@ func (e *Engine) generate(completions Values) {
 func (e *Engine) setPrefix(completions Values) {
 	switch completions.PREFIX {
 	case "":
+		// There is nothing before the cursor.
+		if e.cursor.Pos() == 0 {
+			e.prefix = ""
+			return
+		}
+
 		// Select the character just before the cursor.
 		cpos := e.cursor.Pos() - 1
 		if cpos < 0 {
